@@ -107,6 +107,7 @@ type Store struct {
 	trace   bool
 
 	poison bool
+	failCommit bool // the next Commit fails (one-shot), whatever its position
 
 	perturb Perturb
 	pctr    uint64
@@ -162,6 +163,12 @@ func (s *Store) SetFault(f Fault) { s.mu.Lock(); s.fault = f; s.faultCt = 0; s.m
 func (s *Store) SetKillAt(n int)  { s.mu.Lock(); s.killAt = n; s.mu.Unlock() }
 func (s *Store) SetBudget(n int)  { s.mu.Lock(); s.budget = n; s.mu.Unlock() }
 
+// FailNextCommit makes the next Commit of a mutating transaction fail once (the inner transaction is rolled back).
+func (s *Store) FailNextCommit() { s.mu.Lock(); s.failCommit = true; s.mu.Unlock() }
+
+// DisarmFailCommit withdraws a FailNextCommit that was not consumed.
+func (s *Store) DisarmFailCommit() { s.mu.Lock(); s.failCommit = false; s.mu.Unlock() }
+
 // call is invoked at every store call. It returns an error to inject.
 func (s *Store) call(k Kind, tx *Tx, class string) error {
 	atomic.AddUint64(&s.totalCalls, 1)
@@ -169,6 +176,13 @@ func (s *Store) call(k Kind, tx *Tx, class string) error {
 	s.mu.Lock()
 	defer s.mu.Unlock()
 	var err error
+	if k == KCommit && s.failCommit && tx != nil && tx.mutated {
+		s.failCommit = false
+		err = ErrInjected
+		if s.op != nil {
+			s.op.Injected++
+		}
+	}
 	if tx != nil && tx.finished && k != KRollback {
 		if s.op != nil {
 			s.op.UseAfterFinish++
